@@ -307,9 +307,18 @@ impl de::Error for TermErr {
 
 pub struct TermDe<'a>(pub &'a Term);
 
+thread_local! {
+	/// what the term deserializer's sequences and maps ANNOUNCE as their size (a hint, possibly far off, as a foreign
+	/// deserializer reading an untrusted length prefix may give): None = no hint
+	pub static FORGED_HINT: std::cell::Cell<Option<usize>> = std::cell::Cell::new(None);
+}
+
 struct TermSeq<'a>(std::slice::Iter<'a, Term>);
 impl<'de, 'a> SeqAccess<'de> for TermSeq<'a> {
 	type Error = TermErr;
+	fn size_hint(&self) -> Option<usize> {
+		FORGED_HINT.with(|h| h.get())
+	}
 	fn next_element_seed<T: DeserializeSeed<'de>>(&mut self, seed: T) -> Result<Option<T::Value>, TermErr> {
 		match self.0.next() {
 			Some(t) => seed.deserialize(TermDe(t)).map(Some),
@@ -320,6 +329,9 @@ impl<'de, 'a> SeqAccess<'de> for TermSeq<'a> {
 struct TermMap<'a>(std::slice::Iter<'a, (Term, Term)>, Option<&'a Term>);
 impl<'de, 'a> MapAccess<'de> for TermMap<'a> {
 	type Error = TermErr;
+	fn size_hint(&self) -> Option<usize> {
+		FORGED_HINT.with(|h| h.get())
+	}
 	fn next_key_seed<T: DeserializeSeed<'de>>(&mut self, seed: T) -> Result<Option<T::Value>, TermErr> {
 		match self.0.next() {
 			Some((k, v)) => {
@@ -389,6 +401,9 @@ pub fn replay_visitor(rep: &mut Report, rec: &J) {
 	}
 	rep.count("visitor_vectors");
 	use serde::Deserialize;
+	// the announced sizes rotate: none, exact-ish, and grossly over-estimated ones (nothing may be sized by a hint)
+	let hints = [None, Some(0), Some(2), Some(usize::MAX), Some(usize::MAX / 8), Some(1usize << 40)];
+	FORGED_HINT.with(|h| h.set(hints[rep.counters["visitor_vectors"] as usize % hints.len()]));
 	let got = match guarded(|| Value::deserialize(TermDe(&term))) {
 		Err(p) => json!({"panic": p}),
 		Ok(Ok(v)) => json!({"ok": true, "v": project(&v)}),
